@@ -4,6 +4,7 @@
 package vtree
 
 import (
+	"fmt"
 	"strconv"
 	"unicode/utf8"
 
@@ -52,6 +53,24 @@ func (t Tree) Impl() value.Value {
 		}
 		return value.NewList(items...)
 	case "map":
+		if t.Rep == 3 {
+			// a function map with optional attributes: declared keys that the function reports
+			// as not available are no entries of the map
+			vals := map[string]value.Value{}
+			declared := []string{"\x00absent0"}
+			for i, k := range t.Keys {
+				vals[k] = t.X[i].Impl()
+				declared = append(declared, k)
+				if i%2 == 1 {
+					declared = append(declared, fmt.Sprintf("\x00absent%d", i))
+				}
+			}
+			fac := value.NewFuncMapFactory[value.Int](func(base value.Int, key string) (value.Value, bool) {
+				v, ok := vals[key]
+				return v, ok
+			}, declared...)
+			return fac.Create(value.Int(0))
+		}
 		switch t.Rep % 3 {
 		case 1:
 			rm := value.RealMap{}
@@ -214,7 +233,7 @@ func Gen(t *rapid.T, cs Charset, d int, wrappers bool) Tree {
 		return l
 	case k < 10:
 		n := rapid.IntRange(0, 4).Draw(t, "mlen")
-		m := Tree{K: "map", Rep: rapid.IntRange(0, 2).Draw(t, "mrep")}
+		m := Tree{K: "map", Rep: rapid.IntRange(0, 3).Draw(t, "mrep")}
 		seen := map[string]bool{}
 		for i := 0; i < n; i++ {
 			key := GenString(t, cs, "key")
